@@ -494,13 +494,46 @@ def zeros(shape, dtype="float"):
 class Masked:
     """a[mask] for a 1-D boolean mask over axis 0: selection of unknown length.
     src: reader over full array (idx tuple), n: length of axis 0, mask: reader k -> bool, rest: trailing shape"""
-    __slots__ = ("src", "n", "mask", "rest", "dtype")
+    __slots__ = ("src", "n", "mask", "rest", "dtype", "_enum")
 
     def __init__(self, src, n, mask, rest, dtype):
         self.src, self.n, self.mask, self.rest, self.dtype = src, n, mask, rest, dtype
+        self._enum = None
 
     def count(self):
         return Sum(0, self.n, lambda t: ite(self.mask(t), 1, 0))
+
+    def enumeration(self):
+        """ASSUMED contract of boolean-mask selection a[mask]: the result lists the selected rows in increasing index order,
+        i.e. row p of the result is row sel(p) of `a`, where sel is a bijection from [0, count) onto {j < n : mask_j}
+        (uninterpreted `sel!k`).  Facts 0 <= sel(p) < n and mask(sel(p)) (for 0 <= p < count) are instantiated for every
+        application of sel in a query; the enumeration is registered for the Sigma re-indexing rule (axioms.py)."""
+        if self._enum is None:
+            import z3
+            from . import sigma
+            name = sv.fresh_name("sel")
+            f = z3.Function(name, z3.IntSort(), z3.IntSort())
+            cnt = self.count()
+            n, mask = self.n, self.mask
+
+            def fact(p):
+                inr = z3.And(p >= 0, p < sv.znum(cnt))
+                sp = f(p)
+                return z3.Implies(inr, z3.And(sp >= 0, sp < sv.znum(n), sv.zb(mask(sv.SV(sp)))))
+            cur().array_facts.append((name, fact))
+            sigma.SELECTIONS[name] = (f, n, mask, cnt)
+            self._enum = (f, cnt)
+        return self._enum
+
+    def row(self, p):
+        """element / row p of the selection (0 <= p < count is a side obligation)"""
+        f, cnt = self.enumeration()
+        p = _norm_index(p, cnt, "index-bounds")
+        sp = sv.SV(f(sv.znum(p)))
+        src = self.src
+        if not self.rest:
+            return src((sp,))
+        return new_arr(tuple(self.rest), lambda idx: src((sp,) + tuple(idx)), self.dtype)
 
 
 class MaskRank:
@@ -525,6 +558,7 @@ def masked_getitem(a, key):
     return a.src((key.t,))
 
 
+MASKED_ROW = [None]          # hook: sel[p] for an integer p through another contract of the row enumeration (default: relops)
 SYMBOLIC_MINMAX = [None]     # hook: contract of min/max over a symbolic axis (registered by a library extension)
 
 
@@ -593,6 +627,10 @@ def _masked_getitem(a, key):
     """m[:, None, ...]: the selected axis kept whole, new axes / full slices on the trailing dimensions"""
     if isinstance(key, MaskRank) or (isinstance(key, tuple) and len(key) == 1 and isinstance(key[0], MaskRank)):
         return masked_getitem(a, key if isinstance(key, MaskRank) else key[0])
+    if MASKED_ROW[0] is not None and not isinstance(key, (tuple, slice, list, Arr, Masked)) and key is not None:
+        k = norm(key)
+        if sv.is_scalar(k) and not isinstance(k, bool):
+            return MASKED_ROW[0](a, k)
     if not isinstance(key, tuple):
         key = (key,)
     if not key or not (isinstance(key[0], slice) and key[0] == slice(None)):
